@@ -149,6 +149,7 @@ def main(run):
     run.prove(extra_targets=["proofs/Pinned_parse.vo", "proofs/Pinned_parserecv.vo", "proofs/Pinned_iparse.vo"])
     model_ok = run.build_model()
     run.run_findings()
+    run.pylite(['stream_encode', 'stream_decode', 'tables'])
     if model_ok:
         cs = cases(run)
         tcount = {}
